@@ -21,7 +21,7 @@
     post <rawLen> <preParsed> <buildOk> <trusted> <height> <mtp> <time> <merkleroot>
          <bip34> <bip65> <bip66> <csv> <segwit> <taproot> <tx>*
                                              -> <code> <flags> | panic
-      tx = txid,wtxid,lock,nowit,size,ins,in0script,outs,segwit   (see parseTx)
+      tx = txid,wtxid,lock,nowit,size,ins,in0script,outs,segwit,values   (see parseTx)
 -/
 import GocoinV.Model.BlockCheck
 import GocoinV.Base.Sha256
@@ -75,7 +75,7 @@ def parseOuts (s : String) : Option (List Bytes) :=
 
 def parseTx (s : String) : Option Tx :=
   match s.splitOn "," with
-  | [txid, wtxid, lock, nowit, size, ins, in0, outs, sw] => do
+  | [txid, wtxid, lock, nowit, size, ins, in0, outs, sw, vals] => do
     let txid ← hexItem txid
     let wtxid ← hexItem wtxid
     let lock ← lock.toNat?
@@ -85,7 +85,8 @@ def parseTx (s : String) : Option Tx :=
     let in0 ← hexItem in0
     let outs ← parseOuts outs
     let sw ← parseSegwit sw
-    pure { ins := ins, in0Script := in0, outs := outs, segwit := sw, txid := txid, wtxid := wtxid,
+    let vals ← listOf vals ";" String.toNat?
+    pure { ins := ins, in0Script := in0, outs := outs, segwit := sw, outValues := vals, txid := txid, wtxid := wtxid,
            lockTime := lock, noWitSize := nowit, size := size }
   | _ => none
 
@@ -145,7 +146,7 @@ def step (s : St) (toks : List String) : St × String :=
       pure s!"{getBlockFlags cons (← h.toNat?) (← t.toNat?)}"
   | ["weight", l] => reply do
       let l ← listOf l "," (fun x => match x.splitOn ":" with
-        | [a, b] => do pure ({ ins := [], in0Script := [], outs := [], segwit := none, txid := [], wtxid := [],
+        | [a, b] => do pure ({ ins := [], in0Script := [], outs := [], outValues := [], segwit := none, txid := [], wtxid := [],
                                lockTime := 0, noWitSize := ← a.toNat?, size := ← b.toNat? } : Tx)
         | _ => none)
       pure s!"{blockWeight l}"
